@@ -429,7 +429,10 @@ struct InFlight {
 pub fn run_foreign(run: &mut Run, rng: &mut Rng, nmsgs: usize, lim: &Limits, interleave: bool) {
     // one run in ten uses MANY chunk streams (the receiver must remember a header per csid, for all 65 598 of them)
     let many = !interleave && rng.chance(1, 10);
-    let ncs = if many { rng.range(65, 140) as usize } else { rng.range(if interleave { 2 } else { 1 }, 4) as usize };
+    // one interleaved run in four is CROWDED: 5-16 chunk streams, messages started eagerly and made multi-chunk, so that
+    // many messages are partially received at the same time (RTMP sets no limit on that)
+    let crowd = interleave && rng.chance(1, 4);
+    let ncs = if many { rng.range(65, 140) as usize } else if crowd { rng.range(5, 16) as usize } else { rng.range(if interleave { 2 } else { 1 }, 4) as usize };
     let nmsgs = if many { ncs * 2 + 10 } else { nmsgs };
     let tiny = Limits { max_len: 6, max_chunks: 2 };
     let lim = if many { &tiny } else { lim };
@@ -451,7 +454,7 @@ pub fn run_foreign(run: &mut Run, rng: &mut Rng, nmsgs: usize, lim: &Limits, int
         if !can_start && fl.is_empty() {
             break;
         }
-        let start = can_start && (fl.is_empty() || rng.chance(1, 3));
+        let start = can_start && (fl.is_empty() || rng.chance(if crowd { 3 } else { 1 }, if crowd { 4 } else { 3 }));
         if start {
             started += 1;
             let free: Vec<u32> = csids.iter().cloned().filter(|c| !fl.iter().any(|(fc, _)| fc == c)).collect();
@@ -461,6 +464,10 @@ pub fn run_foreign(run: &mut Run, rng: &mut Rng, nmsgs: usize, lim: &Limits, int
                 Some(sz) => M { ty: 1, msid: 0, ts: *rng.pick(&TS_TABLE), data: sz.to_be_bytes().to_vec() },
                 None => g.next(rng, cs, lim, false),
             };
+            if crowd && setcs.is_none() && cs <= 4096 && m.data.len() <= cs as usize {
+                let n = cs as usize + 1 + rng.below(2 * cs as u64) as usize;
+                m.data = gen_data(rng, n);
+            }
             // legal formats on this csid
             let mut legal = vec![0u8];
             if let Some(p) = tx.get(&c) {
